@@ -18,7 +18,8 @@ Inductive reason :=
 | RStray          (* break/continue count larger than the number of enclosing loops (possibly 0) *)
 | RZero           (* break 0 / continue 0 *)
 | RContCond       (* continue that targets a while/until loop from within its condition *)
-| RMalformed.     (* not derivable from the grammar: empty list / pipeline *)
+| RMalformed      (* not derivable from the grammar: empty list / pipeline *)
+| RPipe.          (* multi-stage pipeline: tested against the model and bash, not covered by the theorem *)
 
 Definition scope_leaf (ctx : list frame) (l : leaf) : list reason :=
   match l with
@@ -39,7 +40,7 @@ Section Lists.
     match snd p with
     | [] => [RMalformed]
     | [c] => scope_cmd ctx c
-    | cs => flat_map (scope_cmd []) cs
+    | cs => RPipe :: flat_map (scope_cmd []) cs
     end.
   Definition scope_andor (ctx : list frame) (a : andor) : list reason :=
     scope_pipeline ctx (fst a) ++ flat_map (fun x => scope_pipeline ctx (snd x)) (snd a).
